@@ -45,7 +45,7 @@ class C02(Check):
                        "feat:repeated-key", "feat:qudit-measure", "feat:classical-control", "feat:sympy-condition",
                        "feat:bitmask-condition", "feat:indexed-condition", "feat:pauli-measure", "feat:reset", "feat:subcircuit", "feat:subcircuit-key-map", "feat:subcircuit-rep-ids",
                        "sim:sv", "sim:dm", "sim:clifford", "sim:stab-sampler", "entry:run", "entry:simulate",
-                       "entry:steps", "entry:sample", "entry:run_sweep", "entry:sweep-from-state", "entry:direct-functions", "init:density-matrix", "entry:stabilizer-measure", "entry:wide-register", "mux:clifford-only-as-product", "entry:step-sampling", "step-sampling:integer-seed", "direct:sample_from_amplitudes", "direct:measure_density_matrix", "gen:deep-clifford", "init:vector", "init:int", "order:permuted", "order:spectator"]
+                       "entry:steps", "entry:sample", "entry:run_sweep", "entry:sweep-from-state", "entry:direct-functions", "entry:mux-qudit-reset", "init:density-matrix", "entry:stabilizer-measure", "entry:wide-register", "mux:clifford-only-as-product", "entry:step-sampling", "step-sampling:integer-seed", "direct:sample_from_amplitudes", "direct:measure_density_matrix", "gen:deep-clifford", "init:vector", "init:int", "order:permuted", "order:spectator"]
 
     def setup(self) -> None:
         from simkit import repoenv
@@ -71,6 +71,8 @@ class C02(Check):
             return self._stabilizer_measure(tape, ctx)
         if tape.chance(1, 40, "wide-register?"):
             return self._wide_register(tape, ctx)
+        if tape.chance(1, 50, "mux-on-qudit-reset?"):
+            return self._mux_qudit_reset(tape, ctx)
         clifford = tape.chance(1, 5, "clifford-circuit?")
         deep_clifford = clifford and tape.chance(1, 2, "deep-clifford?")
         g = qgen.Gen(tape, clifford_only=clifford, allow_channels=False, allow_qudits=not clifford,
@@ -498,6 +500,31 @@ class C02(Check):
         ctx.steps += len(leaves)
         ctx.state(("stabilizer-measure", which, int_seed, n, len(axes), min(len(leaves), 8)))
         ctx.sample = {"entry": what, "circuit": str(ref_c).splitlines()[:14], "leaves_explored": len(leaves)}
+
+    def _mux_qudit_reset(self, tape, ctx: Ctx) -> None:
+        """cirq.sample() chooses a simulator from what the operations say about themselves.  A circuit whose
+        qubit part is Clifford and which resets and measures a qutrit must not go to the stabilizer simulator
+        (which cannot hold a qutrit); whatever is chosen, the records follow the Born rule."""
+        cirq = self.cirq
+        ctx.probe("entry:mux-qudit-reset")
+        q3 = cirq.LineQid(0, dimension=3)
+        qb = cirq.LineQubit(1)
+        ops = []
+        if tape.chance(1, 2, "excite-qutrit?"):
+            ops.append(cirq.XPowGate(dimension=3).on(q3) ** (1 + tape.draw(2, "x3-exp")))
+        ops.append([cirq.H, cirq.X, cirq.S][tape.draw(3, "cl-1q")].on(qb))
+        ops.append(cirq.ResetChannel(3).on(q3))
+        if tape.chance(1, 2, "measure-qutrit?"):
+            ops.append(cirq.measure(q3, key="a"))
+        ops.append(cirq.measure(qb, key="b"))
+        circuit = cirq.Circuit(ops)
+        cfg = self.qdrive.SimConfig("dm", dtype=np.complex64)
+        n = self.qdrive.check_run(P, circuit, cfg, 1 + tape.draw(2, "reps"), ctx, max_leaves=100, entry="sample")
+        ctx.decide("case", repr(circuit), "mux-qudit-reset", n)
+        ctx.nontrivial = True
+        ctx.steps += n
+        ctx.state(("mux-qudit-reset", len(ops), n))
+        ctx.sample = {"entry": "cirq.sample", "circuit": str(circuit).splitlines(), "leaves_explored": n}
 
     def _wide_register(self, tape, ctx: Ctx) -> None:
         """Registers far too wide for a dense state, which the product-state simulators handle qubit by qubit:
